@@ -16,7 +16,7 @@ RULE = ('histories (quick: length <= 8 random; thorough: also all histories of l
         'whose base is a prefix/substring of another present name')
 BASES = ['A', 'A_', 'A_B', 'A_A', 'B', 'AB', 'A_0']
 DSETS = ['Raw', 'Raw_Data', 'Data', 'aw']
-TOOLS = ['Fit', 'Fitter', 'it', 'Fit_x', 'Fi-t']
+TOOLS = ['Fit', 'Fitter', 'it', 'Fit_x', 'Fi-t', 'Fit_2']
 SIBLINGS = [('A_B_000', 'group'), ('A_A_005', 'group'), ('A_x', 'group'), ('A_7', 'group'), ('B_000', 'dataset'),
             ('A_001', 'dataset'), ('AB_0_1', 'group'), ('A_0_003', 'group'), ('Raw_Data-Fitter_002', 'group')]
 
